@@ -279,6 +279,27 @@ func drivers() []text {
 		must(s.PunctPair(az.PairColonSpace))
 		must(s.Char('}'))
 	})
+	// runs of two-character codes and nothing else: the densest text there is (two characters per
+	// five bits), in every length 1..12 and a few long ones, from the start and after other text
+	for _, n := range []int{1, 2, 3, 4, 5, 6, 7, 8, 9, 10, 11, 12, 20, 40, 100} {
+		n := n
+		for v := 0; v < 3; v++ {
+			v := v
+			add(fmt.Sprintf("pp/run%d/v%d", n, v), "main", "pair-run", func(s *az.Script) {
+				if v == 1 {
+					must(s.Text("OK"))
+				}
+				must(s.Latch(az.Punct))
+				for i := 0; i < n; i++ {
+					must(s.PunctPair([]int{az.PairCRLF, az.PairDotSpace, az.PairCommaSpace, az.PairColonSpace}[(i*(1+v))%4]))
+				}
+				if v == 2 {
+					must(s.Latch(az.Upper))
+					must(s.Char('Z'))
+				}
+			})
+		}
+	}
 	add("flg0/latched", "main", "flg0", func(s *az.Script) {
 		must(s.Latch(az.Punct))
 		must(s.Char('!'))
